@@ -184,4 +184,65 @@ theorem exhausted_is_error (data : Text) (k : Kind) (script : List Conn) (ops : 
       cases lb <;> simp_all [Res.isErr]
     · cases h2
 
+/-- retries are bounded: one `Read` sends at most as many requests as the schedule has retries
+(two), from any reader state whatsoever — after that its error is final (`exhausted_is_error`) -/
+theorem requests_bounded (data : Text) (k : Kind) (r : Reader) (m : Nat) :
+    reqCount (Impl.read Cfg.generated data k r m).1.log ≤ reqCount r.log + 2 := by
+  unfold Impl.read
+  have h := readLoop_reqCount Cfg.generated data k m Cfg.generated.sched r ([], Res.ok)
+  generalize Impl.readLoop Cfg.generated data k m Cfg.generated.sched r ([], Res.ok) = x at h
+  obtain ⟨r', out, res⟩ := x
+  simp only [reqCount_append, reqCount] at h ⊢
+  have : Cfg.generated.sched.count true = 2 := by decide
+  omega
+
+/-! ## the recorded assumption is necessary, and the hypotheses are satisfiable -/
+
+/-- a stream that stops after one byte of "ab" and *looks* like a clean end -/
+def silentCut : Conn :=
+  { connFail := false, status := none, page := [], noBody := false, cutAfter := some 1,
+    ending := .clean, chunks := [], eager := false }
+
+/-- without `TruncationSignalled` a short body is accepted as complete: `eof_complete` cannot be
+proved unconditionally (the reader never compares `progress` with Content-Length) -/
+theorem eof_complete_needs_assumption :
+    ∃ (data : Text) (k : Kind) (script : List Conn) (ops : List Op) (pre post : List Event) (out : Text),
+      (final data k script ops).log = pre ++ Event.result out Res.eof :: post ∧
+      delivered pre ++ out ≠ data :=
+  ⟨['a', 'b'], .honours, [silentCut], [.read 4, .read 4],
+    [.req none, .body .ok, .result ['a'] .ok, .body .eof], [], [], by decide, by decide⟩
+
+def dropAt (cut : Nat) (eager : Bool) : Conn :=
+  { connFail := false, status := none, page := [], noBody := false, cutAfter := some cut,
+    ending := .fault, chunks := [], eager := eager }
+
+def cleanConn : Conn :=
+  { connFail := false, status := none, page := [], noBody := false, cutAfter := none,
+    ending := .clean, chunks := [0, 1], eager := false }
+
+/-- non-vacuity: a download of "abcdef" that is dropped after 2 bytes, then after 1 more byte (reported
+together with the error, so that byte is fetched again), resumes twice with `bytes=2-` and completes —
+against a server that honours Range and against one that ignores it.  The script satisfies
+`TruncationSignalled`. -/
+example :
+    (final "abcdef".toList .honours [dropAt 2 false, dropAt 1 true, cleanConn]
+        [.read 4, .read 4, .read 4, .read 4, .read 4]).log =
+      [.req none, .body .ok, .result ['a', 'b'] .ok, .body .fault, .req (some 2), .body .fault,
+       .req (some 2), .body .ok, .result ['c'] .ok, .body .ok, .result ['d', 'e'] .ok,
+       .body .ok, .result ['f'] .ok, .body .eof, .result [] .eof] ∧
+    delivered (final "abcdef".toList .ignores [dropAt 2 false, dropAt 3 true, cleanConn]
+        [.read 4, .read 4, .read 4, .read 4, .read 4]).log = "abcdef".toList ∧
+    TruncationSignalled [dropAt 2 false, dropAt 1 true, cleanConn] := by
+  refine ⟨by decide, by decide, ?_⟩
+  intro c hc
+  simp only [List.mem_cons, List.mem_nil_iff, or_false] at hc
+  rcases hc with rfl | rfl | rfl <;> decide
+
+/-- non-vacuity of `exhausted_is_error`: three faults in one `Read` exhaust it -/
+example :
+    (final "abcdef".toList .honours [dropAt 2 false, dropAt 0 false, dropAt 0 false, cleanConn]
+        [.read 4, .read 4]).log =
+      [.req none, .body .ok, .result ['a', 'b'] .ok, .body .fault, .req (some 2), .body .fault,
+       .req (some 2), .body .fault, .result [] .fault] := by decide
+
 end Apko.C20
